@@ -32,3 +32,5 @@ def run(check):
     check.run_rule('C11.R6', lambda c: rule_concile_compares_denotation(c, 'C11.R6'))
     from ..rules_classes import rule_annotations_paired_with_owner
     check.run_rule('C11.R7', lambda c: rule_annotations_paired_with_owner(c, 'C11.R7'))
+    from ..rules_classes import rule_owner_capability_test
+    check.run_rule('C11.R8', lambda c: rule_owner_capability_test(c, 'C11.R8'))
